@@ -104,11 +104,13 @@ fn std_hash(gs: &GameState) -> u64 {
 /// per-run table for C08: (board, side, step) -> representative state and the path that reached it
 #[derive(Default)]
 pub struct EqTable {
-    map: BTreeMap<([u8; 64], u8, u8), (GameState, u64, u64)>,
+    map: BTreeMap<([u8; 64], u8, u8), (GameState, u64, u64, Vec<Board>, Pending)>,
+    twins: usize,
 }
 impl EqTable {
     pub fn clear(&mut self) {
         self.map.clear();
+        self.twins = 0;
     }
 }
 
@@ -120,7 +122,12 @@ impl World {
     /// start from a diagram in the model's own format; the engine parses the same text
     pub fn from_diagram(ctx: &mut Ctx, text: &str) -> Result<World, Stop> {
         let (board, side, move_no) = parse_diagram(text).ok_or_else(|| Stop::Invalid("start diagram not in the model's format".into()))?;
-        let parsed = eng!("GameState::from_str", text.parse::<GameState>());
+        // the engine reads the position in one of the accepted spellings (F4: text written by another tool)
+        let spelled = respell(text);
+        if spelled != text {
+            ctx.stats.inc("fault.start_text_respelled");
+        }
+        let parsed = eng!("GameState::from_str", spelled.parse::<GameState>());
         ctx.check("parse.ok", p(15), parsed.is_ok(), || format!("well-formed diagram rejected: {:?}", parsed.as_ref().err().map(|e| e.to_string())));
         let gs = match parsed {
             Ok(gs) => gs,
@@ -332,15 +339,62 @@ impl World {
                 ctx.check("hash.history_entries", p(8), bad.is_none(), || format!("history entry {} (newest first) is not the from-scratch hash of that turn start", bad.unwrap()));
                 // equality table
                 let key = (board_key(&board), side_e as u8, step as u8);
-                if let Some((rep, rep_path, rep_std)) = eq.map.get(&key) {
+                if let Some((rep, rep_path, rep_std, rep_boards, rep_pend)) = eq.map.get(&key) {
                     let same = *rep == *gs && *rep_std == std_hash(gs);
                     ctx.check("hash.equal_states", p(8), same, || "two states with the same board, side and step are not == / do not hash equal".to_string());
                     if *rep_path != self.path_fp {
                         ctx.nontrivial(p(8), state_fp(&board, side_e, step, pend));
                         ctx.stats.inc("c08.second_arrivals_other_path");
+                        // transposition twins: the same position reached along two different paths
+                        // (other step order inside the turn, other turn, other branch).  Expanded
+                        // back to back, each must keep its own turn record and both must give the
+                        // same children: anything remembered per position instead of per state shows.
+                        let twin_props = p(2) | p(8) | p(13) | p(14);
+                        if ctx.own & twin_props != 0 && eq.twins < 60 && *rep_boards != self.rec.turn_boards && self.rec.turn_boards.len() == step + 1 && rep_boards.len() == step + 1 {
+                            eq.twins += 1;
+                            ctx.stats.inc("twin_expansions");
+                            let mine = eng!("valid_actions", gs.valid_actions());
+                            let theirs = eng!("valid_actions", rep.valid_actions());
+                            let common: Vec<Action> = mine.iter().filter(|a| !matches!(a, Action::Pass) && theirs.contains(a)).cloned().collect();
+                            let n = common.len();
+                            for j in 0..n.min(3) {
+                                let a = &common[((self.path_fp as usize) + j * 7) % n];
+                                let pv_rep = eng!("trapped_animal_for_action", rep.trapped_animal_for_action(a));
+                                let pv_me = eng!("trapped_animal_for_action", gs.trapped_animal_for_action(a));
+                                // alternate who is expanded first
+                                let (c_rep, c_me) = if j % 2 == 0 {
+                                    let x = eng!("take_action", rep.take_action(a));
+                                    let y = eng!("take_action", gs.take_action(a));
+                                    (x, y)
+                                } else {
+                                    let y = eng!("take_action", gs.take_action(a));
+                                    let x = eng!("take_action", rep.take_action(a));
+                                    (x, y)
+                                };
+                                let (b_rep, b_me) = (decode_board(eng!("piece_board", c_rep.piece_board())), decode_board(eng!("piece_board", c_me.piece_board())));
+                                let same_board = matches!((&b_rep, &b_me), (Ok(x), Ok(y)) if x == y);
+                                ctx.check("twins.same_child_board", p(2), same_board, || format!("{} applied to two states with the same board gives different boards", a));
+                                let pv_same = pv_rep.map(|(sq, pc, g)| (sq.to_string(), kind_of(pc), g)) == pv_me.map(|(sq, pc, g)| (sq.to_string(), kind_of(pc), g));
+                                ctx.check("twins.same_preview", p(13), pv_same, || format!("capture preview of {} differs between two states with the same board", a));
+                                if *rep_pend == pend {
+                                    let (h1, h2) = (eng!("transposition_hash", c_rep.transposition_hash()), eng!("transposition_hash", c_me.transposition_hash()));
+                                    ctx.check("twins.same_child_hash", p(8), h1 == h2, || format!("{} applied to two states with the same board, side, step and status gives different hashes", a));
+                                }
+                                for (child, boards, who) in [(&c_rep, rep_boards, "first"), (&c_me, &self.rec.turn_boards, "second")] {
+                                    let same_turn = child.is_play_phase() && eng!("current_step", child.current_step()) == step + 1 && child.is_p1_turn_to_move() == gs.is_p1_turn_to_move();
+                                    if same_turn {
+                                        for i in 0..=step {
+                                            let got = decode_board(eng!("piece_board_for_step", child.piece_board_for_step(i)));
+                                            let ok = matches!(&got, Ok(b) if *b == boards[i]);
+                                            ctx.check("twins.turn_boards", p(14), ok, || format!("after {} on the {} of two states with the same board reached by different step orders, piece_board_for_step({}) is not the board that stood after {} steps on that state's own path", a, who, i, i));
+                                        }
+                                    }
+                                }
+                            }
+                        }
                     }
                 } else if eq.map.len() < 20_000 {
-                    eq.map.insert(key, (gs.clone(), self.path_fp, std_hash(gs)));
+                    eq.map.insert(key, (gs.clone(), self.path_fp, std_hash(gs), self.rec.turn_boards.clone(), pend));
                 }
             }
         } else {
